@@ -282,6 +282,11 @@ func replayWriterOne(sc *wScenario, realB int, seed int64, stepTimeout time.Dura
 		}
 		cls := kz.Class(r.err)
 		if r.op == "write" {
+			if closeNil && (r.err == nil || r.n > 0) {
+				// C17: Write after a successful Close fails with an error, whatever its length
+				fail(i, "violation", "W_ClosedRefuses", fmt.Sprintf("Write after a successful Close returned (%d, %v)", r.n, r.err))
+				return false
+			}
 			if r.err == nil {
 				accepted = written
 			}
